@@ -125,6 +125,19 @@ func c11(p *core.Program, r *core.Report) {
 	})
 	footprintRule(p, r, "segment-coverage", [][2]string{{"xy/internal/raycrossing", "LocatePointInRing"}, {"xy", "IsOnLine"}})
 
+	const ro = "open-line-not-through-ring-locator"
+	r.Rule(ro, "nothing reachable from xy.IsOnLine lies in package xy/internal/raycrossing: the ray-crossing counter recognises a vertex of the ring only as the earlier end of a segment and relies on the ring's closing segment for the last one, so applied to an open linestring it misses the final vertex whenever the last segment reaches it from below", 1)
+	if fn := mustFn(p, r, ro, "xy", "IsOnLine"); fn != nil {
+		reach := eng.ReachFrom(p, []*ssa.Function{fn})
+		bad := ""
+		for g := range reach.Parent {
+			if core.FnPkgPath(g) == mod+"/xy/internal/raycrossing" && bad == "" {
+				bad = "xy.IsOnLine reaches " + short(g) + ": the closed-ring locator decides a question about an open line"
+			}
+		}
+		r.Check(bad == "", ro, "xy.IsOnLine", p.Pos(fn.Pos()), true, "decided segment by segment, not by the ring locator", bad)
+	}
+
 	const rw = "planar-compare-xy-only"
 	r.Rule(rw, "no function of the planar packages (xy, xy/internal/..., xy/lineintersector, bigxy) compares two coordinate slices as wholes, length included (slices.Equal/Compare/EqualFunc, reflect.DeepEqual): a test point or vertex may carry Z/M ordinates (point.Coords() of an XYZ point), and the planar predicates are defined on ordinates 0 and 1 only - the zero count is guarded by a fixture function that must be reported on every run", 0)
 	{
